@@ -501,6 +501,12 @@ class Body:
                     out |= sub
                 else:
                     return None
+            elif seg == "flatten" and is_iter_ty:
+                # `[first, second].iter().flatten()` over Options: the items are the payloads of the Some elements
+                sub = self._iter_item(args[0], ("as Some", "0") + tuple(item_path), through, _seen, depth + 1)
+                if not sub:
+                    return None
+                out |= sub
             elif seg == "chain":
                 for a in args[:2]:
                     sub = self._iter_item(a, item_path, through, _seen, depth + 1)
